@@ -6,6 +6,8 @@ def _c08_case(c):
     p = c.split(" ")
     if len(p) > 1 and p[0] == "H" and p[1] != "-":
         return {"meta": p[1]}
+    if p[0] == "F":
+        return {"tarfs": c}
     return {"raw": c}
 
 
@@ -161,7 +163,7 @@ def _vm_goal(cid, case, out):
         "true" if f[4] == "v1" else "false")
 
 
-def _c08_vm_sample(d, tier, coq, build, want=300):
+def _c08_vm_sample(d, tier, coq, build, want=200):
     import os, subprocess
     if tier != "thorough":
         return []
@@ -206,8 +208,8 @@ def _c08_vm_sample(d, tier, coq, build, want=300):
 
 CONFIG = {
     "properties_file": "Properties/C08.v",
-    "proof_files": ["Proofs/OciIndex.v"],
-    "model_files": ["Model/OciIndex.v"],
+    "proof_files": ["Proofs/OciIndex.v", "Proofs/TarFS.v"],
+    "model_files": ["Model/OciIndex.v", "Model/TarFS.v"],
     "extract": "XC08.v",
     "ml_main": "c08_main.ml",
     "harness": "c08",
@@ -220,12 +222,12 @@ CONFIG = {
         "descriptor-consistent inputs: each digest is used under one media type and size (nodes of the model are digests); a tag name is never the digest string of another node (wf_history; C08_inconsistent_reference_example shows why); reference names are valid UTF-8 (encoding/json replaces invalid bytes)",
         "content.Successors / manifestutil.Subject / descriptor.IsManifest are parameters of the theorems (succs, subj, mf with succs k = [] for non-manifests); manifests in the universe are well-formed JSON; SHA-2 and the verification of pushed bytes (C05) are not modelled: a blob file is identified with its node",
         "graph.Memory is represented by its node set, Predecessors derived as {p in nodes | n in succs p} (graph.Memory's representation invariant, C07); IndexAll's per-call tracker is modelled as 'skip nodes already in the graph'; its goroutines are not modelled",
-        "Go map iteration orders (saveIndex two passes, gcIndex two passes, per Delete queue iteration the Referrers and Remove sets) are explicit choice lists and the theorems quantify over all of them; the untag loop of delete() is order-independent by construction (each step filters one key). The correspondence run uses identity orders (Go's order is not controllable), so it only generates histories whose compared observables do not depend on the order: AutoGC histories without referrers, without never-stored children and without tags moved between nodes; GC only when every untagged referrer's subject is in the tagged closure",
-        "encoding/json round trip of index.json, os file operations, archive/tar framing and internal/fs/tarfs (pos - blockSize arithmetic, PAX headers of sha512 blob names) are exercised by the harness on real directories and tars, not proved",
-        "the GC hang (F1, C09) is modelled as result RHang with the state unchanged and never generated; Store.GC errors of os.ReadDir/os.Remove and stray files under blobs/ are not modelled",
+        "Go map iteration orders (saveIndex two passes, gcIndex tagged pass and every round of the referrer pass, per Delete queue iteration the Referrers and Remove sets) are explicit choice lists and the theorems quantify over all of them; the untag loop of delete() is order-independent by construction. Go's order is not controllable, so the extracted model is run with pseudo-random orders and the compared observables must be (and on the repaired code are) independent of them; histories now include Delete cascades through referrers and never-stored children, GC with untagged subject chains and tags moved between nodes",
+        "encoding/json round trip of index.json and os file operations are exercised by the harness on real directories, not proved; internal/fs/tarfs is modelled at the level of cleaned names (Model/TarFS.v: last entry of a cleaned name wins, non-regular entries unsupported) and tied by unit cases through a verifhooks re-export; path.Clean is a parameter; archive/tar framing (the pos - blockSize re-read, PAX / GNU long-name records) is exercised on six archive styles, not proved",
+        "the model follows the repaired Delete / gcIndex / resolver.Memory.Tag of /repo main (C09's fixes); the referrer pass as found (GC hang, F1) is kept behind fixF1=false with result RHang (C08_gc_hang_prefix); os.ReadDir/os.Remove errors of GC's sweep are not modelled; files under blobs/ that are no content are modelled by kind (gc_sweeps_stray) outside the store record; blob files written behind the store's back (OInject) are restricted to non-manifest content in the theorems",
     ],
     "level_text": "Coq theorems over all histories of Push/Tag/Untag/Delete/GC/SaveIndex/read-write reopen, all universes (DAG, media types), both AutoGC settings and all Go map iteration orders: with AutoSaveIndex (or after SaveIndex) the store reloaded from index.json + blobs answers exactly like the running store (tag list, tag->descriptor up to the ref-name annotation, Resolve by digest, Exists/Fetch, Predecessors) and every index.json entry points to a stored blob; proved as a store invariant + 'index.json is an order-independent projection of the resolver map' + load-after-save identity, about an executable model that is extracted and run against content/oci on random histories over real directories reopened three ways (oci.New, NewFromFS(os.DirFS), NewFromTar), with an independent reopen/layout/predecessor oracle",
-    "level_note": "full for the repaired GC (two fix: commits: GC saves index.json; GC keeps digest references of kept content); the pre-fix code is refuted by C08_reopen_equiv_refuted_gc and C08_reopen_equiv_refuted_gc_digest_ref; tar framing, JSON and the file system are exercised, not proved; the three reopen paths share loadIndex in the model",
+    "level_note": "full for the repaired code (GC saves index.json; GC keeps digest references of kept content; C09's Delete/gcIndex/resolver fixes); the pre-fix code is refuted by C08_reopen_equiv_refuted_gc, C08_reopen_equiv_refuted_gc_digest_ref and C08_gc_hang_prefix; the three reopen paths share loadIndex over an fs.FS in the model: oci.New only adds file creation on a missing layout, NewFromTar adds internal/fs/tarfs, modelled separately (C08_tar_view: an archive of the directory gives the os.DirFS view); tar framing, JSON and the file system are exercised, not proved; thorough tier re-evaluates 200 sampled histories inside Coq (vm_compute) against the extracted runner",
     "technique": "machine-checked proof in Coq (store state machine, invariant over all histories and map iteration orders, load-after-save observational identity) + model/implementation correspondence on random histories + independent reopen/layout oracle",
     "explanation": "invariant (every stored manifest is referenced by digest and indexed; every reference points to stored content; index.json is a projection of the resolver map) proved for every history and map order; reopen = loadIndex of that projection proved observationally equal; model extracted and compared with content/oci on random histories with three-way reopening; independent oracle compares original and reopened stores, checks predecessors against the generator's edges and validates the raw directory",
 }
